@@ -199,7 +199,7 @@ fn build(tier: Tier) -> Box<dyn Check> {
     }
     let t: Space<usize> = Space::of((0..TEMPLATES.len()).collect());
     let m: Space<usize> = Space::of((0..MENTIONS.len()).collect());
-    Box::new(C19 { corpus: Rc::new(texts), mention: t.product(&m.seq_exact(4), |t, v| (t, v)) })
+    Box::new(C19 { corpus: Rc::new(texts), mention: if tier == Tier::Thorough { Space::union(vec![t.product(&m.seq_exact(4), |t, v| (t, v)), t.product(&m.seq_exact(5), |t, v| (t, v))]) } else { t.product(&m.seq_exact(4), |t, v| (t, v)) } })
 }
 
 fn fill(t: &str, v: &[usize]) -> String {
@@ -209,7 +209,7 @@ fn fill(t: &str, v: &[usize]) -> String {
             'A' => s.push_str(MENTIONS[v[0]]),
             'B' => s.push_str(MENTIONS[v[1]]),
             'C' => s.push_str(MENTIONS[v[2]]),
-            'D' => s.push_str(MENTIONS[v[3]]),
+            'D' => s.push_str(&if v.len() > 4 { format!("{} plus {}", MENTIONS[v[3]], MENTIONS[v[4]]) } else { MENTIONS[v[3]].to_string() }),
             x => s.push(x),
         }
     }
